@@ -231,6 +231,16 @@ func (ws *priorityWriteSchedulerRFC7540) OpenStream(streamID uint32, options Ope
 			panic(fmt.Sprintf("stream %d already opened", streamID))
 		}
 		curr.state = priorityNodeOpenRFC7540
+		// The node is no longer idle: take it off the idle list, so that
+		// addClosedOrIdleNode never evicts the node of an open stream.
+		for i, n := range ws.idleNodes {
+			if n == curr {
+				copy(ws.idleNodes[i:], ws.idleNodes[i+1:])
+				ws.idleNodes[len(ws.idleNodes)-1] = nil
+				ws.idleNodes = ws.idleNodes[:len(ws.idleNodes)-1]
+				break
+			}
+		}
 		return
 	}
 
